@@ -165,6 +165,13 @@ def _worker_echo(n):
             plain(n))
 
 
+def _worker_copy(n):
+    """construct new nodes inside a worker process"""
+    c = copy.deepcopy(n)
+    import os
+    return (os.getpid(), [x.id for x in all_nodes(c)], plain(c))
+
+
 def check_pickle(maxn):
     rec = Recorder('C12/native/pickle', f'all trees with <= {maxn} nodes '
                    'over {a, "b c", unicode}: in-process round trip and '
@@ -173,9 +180,31 @@ def check_pickle(maxn):
     ns = [build(t) for t in ts]
     for t, n in zip(ts, ns):
         rec.case(t, R.sexpr(t))
-        m = pickle.loads(pickle.dumps(n))
+        try:
+            m = pickle.loads(pickle.dumps(n))
+        except Exception as e:  # noqa
+            rec.violation('pickle-inproc-raises', t,
+                          f'{type(e).__name__}: {e}')
+            continue
         _cmp_pickled(rec, 'pickle-inproc', t, n, m)
     ctx = multiprocessing.get_context('fork')
+    # nodes constructed in different processes of a fork pool (and in the
+    # parent meanwhile) never share an id
+    with ctx.Pool(3) as pool:
+        seen = {}
+        it = pool.imap(_worker_copy, ns[:300], chunksize=1)
+        for k, (pid, ids, pl) in enumerate(it):
+            fresh = Node('parent-side')  # the parent keeps constructing
+            for i in ids + [fresh.id]:
+                if i in seen and seen[i] != (pid, k):
+                    rec.violation('ids-unique-across-processes',
+                                  {'id': i, 'first': seen[i],
+                                   'second': (pid, k)},
+                                  'two constructions in different '
+                                  'processes got the same id')
+                    break
+                seen[i] = (pid, k)
+            rec.case(('pool-construct', k))
     with ctx.Pool(2) as pool:
         for (t, n), (m, ids, hashes, pl) in zip(
                 zip(ts, ns), pool.imap(_worker_echo, ns, chunksize=50)):
